@@ -364,6 +364,46 @@ def check(model, tier):
                 run.fail("R18.6", inst, f"the {arm} arm executes `{'.'.join(acc)}` {len(calls)} times on one path (`{src(calls[1])[:50]}` again): a sort, deduplication or unexecuted materialization upstream consumes its input once per execution", fi=ex, node=calls[1], details=describe(p))
             else:
                 run.ok("R18.6", inst)
+    _dispatch.r_execute_direct_operands(ctx, "R18.10")
+    # ---- R18.9 what a result computes is fixed when execute() returns
+    run.rule(
+        "R18.9",
+        "the callables the iteration engine's converters return consult the engine no more: no lambda or nested function "
+        "inside a method of the engine calls a method of `self` (get_function, convert_*): everything is resolved at conversion time, so "
+        "iterating a result twice gives the same rows whatever happened to the engine's function registry in between",
+        4,
+    )
+    raw = ast.parse(ex.module.source)
+    eng_raw = next((n for n in raw.body if isinstance(n, ast.ClassDef) and n.name == ex.cls.name), None)
+    if eng_raw is None:
+        raise AnalysisError("iteration Engine class not found in the source text")
+    n_conv = 0
+    for fn in eng_raw.body:
+        if not isinstance(fn, ast.FunctionDef):
+            continue
+        n_conv += 1
+        late = []
+        for inner in ast.walk(fn):
+            if inner is fn or not isinstance(inner, (ast.Lambda, ast.FunctionDef)):
+                continue
+            for c in ast.walk(inner):
+                if isinstance(c, ast.Call) and isinstance(c.func, ast.Attribute) and isinstance(c.func.value, ast.Name) and c.func.value.id == "self":
+                    late.append(c)
+        inst = f"{fn.name}:resolved-at-conversion"
+        if late:
+            run.fail(
+                "R18.9",
+                inst,
+                f"`{src(late[0])[:60]}` is evaluated inside the callable {fn.name} returns, i.e. once per row at iteration time: the rows of an already executed relation then depend on the "
+                "state of the engine (its `functions` registry, an overridden hook) at the time they are iterated, and two iterations of one result can differ",
+                file=ex.module.path,
+                line=late[0].lineno,
+                func=f"{ex.cls.name}.{fn.name}",
+            )
+        else:
+            run.ok("R18.9", inst)
+    if n_conv < 3:
+        raise AnalysisError("the iteration engine has fewer than three convert_* methods")
     # ---- R18.8 a materialization is evaluated once for all
     run.rule(
         "R18.8",
